@@ -424,4 +424,23 @@ EmitTag == IF hist'[Len(hist')].a = "established" /\ (\E i \in 1..Len(out'.calls
            ELSE IF hist'[Len(hist')].a = "accept_err" THEN "accerr"
            ELSE ""
 Emit == PrintT(<<"B", ToJson([maxIn |-> MaxIn, maxOut |-> MaxOut, two |-> (WsAddrs # {}), tag |-> EmitTag, stims |-> hist'])>>)
+-----------------------------------------------------------------------------
+(* Refinement of the counter abstraction ConnCaps.tla, whose invariant     *)
+(* IndInv Apalache proves inductive (histories of any length, reusable     *)
+(* connection ids).  A concluded connection id maps to "free".             *)
+AbsCids == 0..(MaxCid - 1)
+AbsPhase(c) ==
+  IF c \notin DOMAIN tx THEN "free"
+  ELSE IF tx[c] \in {"dialing", "opening", "negotiating"} THEN "out"
+  ELSE IF tx[c] = "in_neg" THEN "inneg"
+  ELSE IF tx[c] \in {"accepting", "live"} THEN tx[c]
+  ELSE "free"
+CC == INSTANCE ConnCaps WITH Cids <- AbsCids,
+        st <- [c \in AbsCids |-> AbsPhase(c)],
+        cpeer <- [c \in AbsCids |-> IF c \in DOMAIN cpeer THEN cpeer[c] ELSE "?"],
+        cdir <- [c \in AbsCids |-> IF c \in DOMAIN cdir THEN cdir[c] ELSE "in"]
+\* every step of the implementation-shaped model is a ConnCaps step or leaves its variables unchanged
+CapsRefinement == [][CC!Next]_(CC!ccvars)
+\* and the inductive invariant holds in every reachable state of the bound model
+CapsInd == CC!IndInv
 =============================================================================
